@@ -455,6 +455,7 @@ inductive Reach : HS P → Prop where
   | init (r : Role) : Reach (HS.init k W r)
   | msg {h : HS P} (m : Msg) : Reach h → WellFramed m → Reach (HS.onMsg k f W h m)
   | ccs {h : HS P} : Reach h → Reach (HS.onCCS k h)
+  | fail {h : HS P} (a : Nat) : Reach h → Reach (HS.fail h a)
 
 end machine
 
@@ -584,47 +585,67 @@ def Conn.pump (c : Conn P) : Nat → Conn P
           | some (m, rest) => Conn.pump { c with hs := HS.onMsg k f W c.hs m, hand := rest } fuel
       | _ => c
 
+/-- an alert record (after decryption) -/
+def Conn.onAlert (c : Conn P) (data : Bytes) : Conn P :=
+  match data with
+  | [lvl, desc] =>
+    if desc.toNat = k.aCloseNotify then { c with status := .failed "eof" }
+    else if lvl.toNat = k.aWarning then
+      -- dropped on the floor, at most `maxUselessRecords` in a row
+      if c.retry + 1 > k.maxUseless then Conn.failLocal k c k.aUnexpected
+      else { c with retry := c.retry + 1 }
+    else if lvl.toNat = k.aFatal then { c with status := .failed s!"remote:{desc.toNat}" }
+    else Conn.failLocal k c k.aUnexpected
+  | _ => Conn.failLocal k c k.aUnexpected
+
+/-- a ChangeCipherSpec record -/
+def Conn.onCCSRecord (c : Conn P) (data : Bytes) : Conn P :=
+  if data ≠ [1] then Conn.failLocal k c k.aDecode
+  else if f.ccsNeedsEmptyHand ∧ c.hand ≠ [] then Conn.failLocal k c k.aUnexpected
+  else if f.ccsNeedsExpect ∧ ¬ c.hs.expectCCS then Conn.failLocal k c k.aUnexpected
+  else Conn.sync k { c with hs := HS.onCCS k c.hs, inOn := true, inSeq := 0 }
+
+/-- a handshake record -/
+def Conn.onHandshakeRecord (c : Conn P) (data : Bytes) : Conn P :=
+  if data = [] ∨ (f.hsRefusedWhenCCSExpected ∧ c.hs.expectCCS) then Conn.failLocal k c k.aUnexpected
+  else
+    let c := { c with hand := c.hand ++ data, retry := 0 }
+    Conn.sync k (Conn.pump k f W c (c.hand.length + 1))
+
+/-- the `switch typ` of `readRecordOrCCS`, during a handshake -/
+def Conn.dispatch (c : Conn P) (typ : Nat) (data : Bytes) : Conn P :=
+  if ¬ c.inOn ∧ typ = k.rtApp then Conn.failLocal k c k.aUnexpected
+  else if typ = k.rtAlert then Conn.onAlert k c data
+  else if typ = k.rtCCS then Conn.onCCSRecord k f c data
+  else if typ = k.rtApp then Conn.failLocal k c k.aUnexpected
+  else if typ = k.rtHS then Conn.onHandshakeRecord k f W c data
+  else Conn.failLocal k c k.aUnexpected
+
+/-- record protection on the read side -/
+def Conn.openRecord (c : Conn P) (r : Record) : Option (Bytes × Nat) :=
+  match c.inOn, c.hs.ms with
+  | true, some ms =>
+    (P.unwrap (P.kdf ms (!c.hs.role.isClient)) c.inSeq r.typ r.payload).map (fun p => (p, c.inSeq + 1))
+  | _, _ => some (r.payload, c.inSeq)
+
+/-- the header checks of `readRecordOrCCS`: `none` = passes -/
+def Conn.headerCheck (c : Conn P) (r : Record) : Option (Conn P) :=
+  if (if f.versCheckedOnlyWhenHave then c.haveVers else true) ∧ r.vers ≠ k.vers then
+    some (Conn.failLocal k c k.aProtoVers)
+  else if ¬ c.haveVers ∧ ((r.typ ≠ k.rtAlert ∧ r.typ ≠ k.rtHS) ∨ r.vers ≥ 4096) then
+    some { c with status := .failed "local:header" }
+  else if r.payload.length > k.maxCiphertext then some (Conn.failLocal k c k.aOverflow)
+  else none
+
 /-- one record arrives (`readRecordOrCCS`) -/
 def Conn.deliver (c : Conn P) (r : Record) : Conn P :=
   if c.status ≠ .running then c else
-  -- version / first-record heuristics
-  if (if f.versCheckedOnlyWhenHave then c.haveVers else true) ∧ r.vers ≠ k.vers then Conn.failLocal k c k.aProtoVers else
-  if ¬ c.haveVers ∧ ((r.typ ≠ k.rtAlert ∧ r.typ ≠ k.rtHS) ∨ r.vers ≥ 4096) then
-    { c with status := .failed "local:header" } else
-  if r.payload.length > k.maxCiphertext then Conn.failLocal k c k.aOverflow else
-  -- decrypt
-  let opened : Option (Bytes × Nat) :=
-    match c.inOn, c.hs.ms with
-    | true, some ms =>
-      (P.unwrap (P.kdf ms (!c.hs.role.isClient)) c.inSeq r.typ r.payload).map (fun p => (p, c.inSeq + 1))
-    | _, _ => some (r.payload, c.inSeq)
-  match opened with
-  | none => Conn.failLocal k c k.aBadMac
-  | some (data, seq) =>
-    let c := { c with inSeq := seq }
-    if ¬ c.inOn ∧ r.typ = k.rtApp then Conn.failLocal k c k.aUnexpected else
-    if r.typ = k.rtAlert then
-      match data with
-      | [lvl, desc] =>
-        if desc.toNat = k.aCloseNotify then { c with status := .failed "eof" }
-        else if lvl.toNat = k.aWarning then
-          if c.retry + 1 > k.maxUseless then Conn.failLocal k c k.aUnexpected
-          else { c with retry := c.retry + 1 }
-        else if lvl.toNat = k.aFatal then { c with status := .failed s!"remote:{desc.toNat}" }
-        else Conn.failLocal k c k.aUnexpected
-      | _ => Conn.failLocal k c k.aUnexpected
-    else if r.typ = k.rtCCS then
-      if data ≠ [1] then Conn.failLocal k c k.aDecode
-      else if f.ccsNeedsEmptyHand ∧ c.hand ≠ [] then Conn.failLocal k c k.aUnexpected
-      else if f.ccsNeedsExpect ∧ ¬ c.hs.expectCCS then Conn.failLocal k c k.aUnexpected
-      else Conn.sync k { c with hs := HS.onCCS k c.hs, inOn := true, inSeq := 0 }
-    else if r.typ = k.rtApp then Conn.failLocal k c k.aUnexpected
-    else if r.typ = k.rtHS then
-      if data = [] ∨ (f.hsRefusedWhenCCSExpected ∧ c.hs.expectCCS) then Conn.failLocal k c k.aUnexpected
-      else
-        let c := { c with hand := c.hand ++ data, retry := 0 }
-        Conn.sync k (Conn.pump k f W c (c.hand.length + 1))
-    else Conn.failLocal k c k.aUnexpected
+  match Conn.headerCheck k f c r with
+  | some c' => c'
+  | none =>
+    match Conn.openRecord c r with
+    | none => Conn.failLocal k c k.aBadMac
+    | some (data, seq) => Conn.dispatch k f W { c with inSeq := seq } r.typ data
 
 /-! ### the attacker and the global run -/
 
